@@ -6,5 +6,6 @@ CONSTANTS
   TailLen = 3
   MaxBlobs = 1
   FlushFirst = TRUE
+  WriteAll = TRUE
 INVARIANTS C10_PrefixConsistent
 CHECK_DEADLOCK FALSE
